@@ -261,7 +261,8 @@ def generate_measure(cases: list, edges: str = 'set') -> dict:
         else:
             hsame = model_nodes_canon(mo['nodes']) == im['nodes'] and set(map(tuple, mo['edges'])) == set(map(tuple, im['edges'])) \
                     and set(map(tuple, im['edges'])) == set(map(tuple, im.get('parent_edges', im['edges'])))
-            if edges == 'exact': hsame = hsame and sorted(map(tuple, mo['edges'])) == sorted(map(tuple, im['edges']))
+            # (the hand model lists every edge once per link; the multiplicities of the real lists - which the generated code
+            # reproduces - are not part of C01 / C02 and are not compared on this side)
         prob, _ = generate_cmp(g, im, edges=edges)
         if prob:
             st['gen_ne_impl'] += 1; st['examples'].append(['gen!=impl', {'spec': s, 'inst': m, 'churn_seed': cs, 'what': prob}])
